@@ -2,6 +2,7 @@ import KtVerif.Model.Float
 import KtVerif.Model.Vectors
 import KtVerif.Proofs.Float
 import KtVerif.Proofs.FloatDiv
+import KtVerif.Proofs.FloatDivU64
 /-!
 # Shared facts about the exact binary64 emulation (used by C04, C08, C11, C14)
 
@@ -61,6 +62,10 @@ theorem fmt6_length (n : Nat) (hn : n ≤ f64One) : (fmt6 n).length = 8 :=
 theorem covBinF64_eq_div (c b : Nat) (hc : c < 2 ^ 32) (hb1 : 1 ≤ b) (hb : b < 2 ^ 32) : covBinF64 c b = c / b :=
   Fl.covBinF64_eq_div c b hc hb1 hb
 
+/-- any bin size up to 2^64: beyond the u32 range the quotient is below 1 and the floor is 0 = c / b -/
+theorem covBinF64_eq_div_u64 (c b : Nat) (hc : c < 2 ^ 32) (hb1 : 1 ≤ b) (hb : b < 2 ^ 64) : covBinF64 c b = c / b :=
+  Fl.covBinF64_eq_div_u64 c b hc hb1 hb
+
 /-! ## non-vacuity: concrete values of the emulation (bit patterns as printed by Rust `to_bits`);
     `decide +kernel`: kernel evaluation with GMP-accelerated `Nat` arithmetic, no axioms -/
 
@@ -79,5 +84,8 @@ example : fmt6 (f64Div (f64OfNat 0) (f64OfNat 5)) = [48,46,48,48,48,48,48,48] :=
 example : fmt6Int (f64Div (f64OfNat 2) (f64OfNat 3)) = 666667 := by decide +kernel
 example : roundDiv 5 2 = 2 ∧ roundDiv 7 2 = 4 ∧ roundDiv 9 4 = 2 := by decide
 example : covBinF64 4294967294 4294967295 = 0 ∧ covBinF64 4294967295 4294967295 = 1 ∧ covBinF64 100 7 = 14 := by decide +kernel
+-- bin sizes beyond u32: 2^32, 2^53 + 1 (not a double), 2^64 - 1
+example : covBinF64 4294967295 4294967296 = 0 ∧ covBinF64 4294967295 9007199254740993 = 0 ∧
+    covBinF64 4294967295 18446744073709551615 = 0 := by decide +kernel
 
 end KT
